@@ -63,6 +63,11 @@ except ImportError:                     # pragma: no cover
     pass
 EXC['EAB~'] = EAB_X
 EXC['EX~'] = EX_A
+# an application's own classes that merely share their NAME with a builtin
+# or zExceptions exception (a library's own NotFound / KeyError): handlers
+# go by name
+EXC['NotFound~'] = type('NotFound', (EA,), {})
+EXC['KeyError~'] = type('KeyError', (EX,), {})
 
 
 class _Undef:
